@@ -192,10 +192,16 @@ func parseUpCfg(s string) *upCfg {
 // fake hijackable ResponseWriter
 type hjConn struct {
 	net.Conn
-	buf bytes.Buffer
+	buf       bytes.Buffer
+	failWrite bool // the peer is gone: every write fails
 }
 
-func (c *hjConn) Write(p []byte) (int, error)        { return c.buf.Write(p) }
+func (c *hjConn) Write(p []byte) (int, error) {
+	if c.failWrite {
+		return 0, errDst
+	}
+	return c.buf.Write(p)
+}
 func (c *hjConn) SetDeadline(time.Time) error        { return nil }
 func (c *hjConn) SetWriteDeadline(time.Time) error   { return nil }
 func (c *hjConn) SetReadDeadline(time.Time) error    { return nil }
@@ -247,6 +253,18 @@ func init() {
 		}
 		areq := fmt.Sprintf("%s;%d;%d;%s;%s", hx([]byte(req.Method)), req.ProtoMajor, req.ProtoMinor, hx([]byte(req.Host)), strings.Join(hv, ";"))
 		return fmt.Sprintf("%s proto=%s exts=%s written=%s areq=%s", hsErrClass2(err), hx([]byte(hs.Protocol)), optsStr(hs.Extensions), hx(conn.buf.Bytes()), areq)
+	}
+	// hupw <cfg> <reqhex>: HTTPUpgrader when the hijacked connection refuses every write (the client has gone
+	// away): the handshake did not happen, whatever the request was
+	ops["hupw"] = func(a []string) string {
+		c := parseUpCfg(a[0])
+		req, err := http.ReadRequest(bufio.NewReader(bytes.NewReader(unhx(a[1]))))
+		if err != nil {
+			return "SKIP:net/http"
+		}
+		conn := &hjConn{failWrite: true}
+		_, _, _, err = c.hu.Upgrade(req, &hjWriter{conn: conn, h: http.Header{}})
+		return fmt.Sprintf("%s written=%d", hsErrClass2(err), conn.buf.Len())
 	}
 	register("C09", genC09)
 	register("C09", genHsCut)
@@ -399,6 +417,11 @@ func genC09(tier string, r *rng) {
 				emitUp(ec, buildReq("GET", "/", "HTTP/1.1", append(append([]hdr{}, base...), three...), "\r\n"))
 			}
 		}
+	}
+	// the response cannot be written
+	for _, cfg := range []string{"-", "proto:" + hx([]byte("chat")), "neg:0;0;0;0"} {
+		run(fmt.Sprintf("hupw %s %s", cfg, hx(buildReq("GET", "/", "HTTP/1.1", append(append([]hdr{}, base...), hdr{"Sec-WebSocket-Protocol", " chat"}, hdr{"Sec-WebSocket-Extensions", " permessage-deflate"}), "\r\n"))))
+		run(fmt.Sprintf("hupw %s %s", cfg, hx(buildReq("GET", "/", "HTTP/1.1", base[:3], "\r\n"))))
 	}
 	// callbacks: every combination of accept / reject (custom status, headers; plain error)
 	rej1 := "403:" + hx([]byte("forbidden by test")) + ":" + hx([]byte("X-Why: because\r\n"))
